@@ -72,42 +72,43 @@ MC = {
     "C01": [mc("MC_Line")], "C02": [mc("MC_Line")], "C03": [mc("MC_Line"), mc("MC_Args")], "C04": [mc("MC_Args")], "C05": [mc("MC_Args")],
     "C06": [mc("MC_Line")], "C07": [mc("MC_Args")], "C08": [mc("MC_Args")], "C09": [mc("MC_Flags")], "C10": [mc("MC_Codes")],
     "C11": [mc("MC_Sched")], "C12": [mc("MC_Sched")], "C13": [mc("MC_Ring"), mc("MC_Sched")], "C14": [mc("MC_Hold")],
-    "C15": [mc("MC_Live"), mc("MC_Sched", quick=False)], "C16": [mc("MC_Mutex")], "C17": [], "C18": [mc("MC_Sched"), mc("MC_Hold")],
+    "C15": [mc("MC_Live"), mc("MC_Sched", quick=False)], "C16": [mc("MC_Mutex")], "C17": [mc("MC_Threads", module="CatThreads")], "C18": [mc("MC_Sched"), mc("MC_Hold")],
     "C19": [mc("MC_List")], "C20": [mc("MC_Hist")],
 }
 for _p, _l in MC.items():
     PROPS[_p]["mc"] = _l
 
-HOOK_COMMITS = []
+HOOK_COMMITS = ["ac6a386"]
 NOT_YET = {}
-_T = "TLA+ specification checked with TLC; conformance by trace validation of real executions (TLC evaluates CatImpl and the CatMon monitors on every recorded call)"
-CLAIMS = {
-    "C01": {"text": "Monitor C01 (pending-line / read-ahead / result-code accounting) is evaluated by TLC on every recorded execution of the real parser: general random corpus plus the prefix x suffix x registration-order sweep; the same executions are checked call by call against CatImpl.",
-            "note": "bounded: finite seeded corpora; lines of the sweep family are exhaustive per generated table only", "technique": _T},
-    "C02": {"text": "LineOutcome (declarative name resolution and suffix rule of CatOracle) predicts for every consumed line which handler may run; TLC compares it with the handler events of the real code over random tables, the prefix sweep, bit-lane tables of 4..64 commands and the case-fold family.",
-            "note": "duplicate names follow 'first FULL in registration order'; bounded corpora", "technique": _T},
-    "C04": {"text": "DecodeVar (digit-sequence arithmetic, no machine integers) predicts acceptance and the stored value of every numeric argument; TLC compares result code, callbacks and variable storage of the real code over boundary and adversarial digit strings (up to buffer capacity, beyond 2^64) for every type x width x access x position.",
-            "note": "values are compared as canonical digit strings produced by the harness from the variable's bytes", "technique": _T},
-    "C15": {"text": "Monitor: whenever cat_service returns OK nothing may be owed (no unanswered line, no owed output unit, no pending event) and a repeated call without stimulus must be a stutter; every scenario ends with a bounded settle loop whose failure is a violation.",
-            "note": "liveness is checked as bounded quiescence on executions (call budget per settle); the model-checking liveness configuration is not yet part of this check", "technique": _T},
-    "C18": {"text": "cat_is_busy / cat_is_hold are queried after every cat_service call in the general family; the monitor knows partial lines, unanswered lines and open output units from the observable events and flags an OK answer while any of them exists, and a BUSY answer at quiescence.",
-            "note": "between the last byte of a unit and quiescence either answer is accepted", "technique": _T},
-    "C19": {"text": "TestText / ListBlocks (CatOracle) predict the '=?' response and the command list from the descriptor; TLC matches the output bytes of the real code against them over random descriptors (types x widths x access x flags x handler subsets x groups) and capacities around the text length, by line and by event.",
-            "note": "consistency 'advertised form is accepted' follows from the dispatcher oracle (LineOutcome) being checked on the same tables", "technique": _T},
-}
+_T = "explicit TLA+ specification (CatImpl + CatOracle + CatMon) model-checked with TLC (CatSys configurations); bound to cat.c by TLC trace validation of recorded executions (CatTrace: step-grain conformance to CatImpl plus observable-grain property monitors)"
+_N = "bounded: the model-checking configurations use small constants (stated in spec/MC_*.cfg) and the executions are finite seeded corpora; verdicts come from the CatMon monitors on executions of the real code, CatImpl mismatches without a monitor hit are recorded as drift only"
 
-PROPS["C03"]["families"] = [GENERAL_S, fam("fam_bounds", 40, 800), fam("fam_buf", 20, 400), fam("fam_num", 20, 400)]
-PROPS["C05"]["families"] = [GENERAL_S, fam("fam_buf", 60, 1500)]
-PROPS["C06"]["families"] = [GENERAL_S, fam("fam_bounds", 50, 1000)]
-PROPS["C07"]["families"] = [fam("fam_round", 40, 1500), fam("fam_round_exh8", 12, 60), fam("fam_access", 20, 300)]
-PROPS["C08"]["families"] = [GENERAL_S, fam("fam_access", 60, 1500)]
-PROPS["C09"]["families"] = [GENERAL_S, fam("fam_flags", 40, 1000)]
-PROPS["C10"]["families"] = [GENERAL_S, fam("fam_codes", 40, 1000)]
-PROPS["C11"]["families"] = [GENERAL_S, fam("fam_sched", 48, 1200)]
-PROPS["C12"]["families"] = [GENERAL_S, fam("fam_sched", 48, 1200)]
-PROPS["C13"]["families"] = [GENERAL_S, fam("fam_ring", 24, 400), fam("fam_quiesce", 10, 200)]
-PROPS["C14"]["families"] = [GENERAL_S, fam("fam_hold", 40, 800)]
-PROPS["C15"]["families"] = [GENERAL_S, fam("fam_quiesce", 40, 800), fam("fam_sched", 16, 200)]
-PROPS["C16"]["families"] = [fam("fam_mutex", 64, 1600), {"name": "fam_general_mutex", "gen": fam_general(lines=3, mutex=True), "quick": 30, "thorough": 600}]
-PROPS["C18"]["families"] = [GENERAL_S, fam("fam_sched", 32, 800), fam("fam_hold", 16, 300)]
-PROPS["C20"]["families"] = [GENERAL_S, fam("fam_hist", 80, 2000)]
+
+def _c(text, note=_N, technique=_T):
+    return {"text": text, "note": note, "technique": technique}
+
+
+CLAIMS = {
+    "C01": _c("MC_Line: all input streams of <= 5 (thorough 7) bytes over a 9-symbol alphabet against 5 tables, NoBad + AckAfterLF. Executions: general corpus and the prefix x suffix x registration-order sweep; the monitor accounts for every consumed byte and every result code (pending line, read-ahead, stray code)."),
+    "C02": _c("LineOutcome (declarative name resolution and suffix rule, CatOracle) is compared by TLC with the handler events of CatImpl for all inputs of MC_Line and with those of the real code over random tables, the prefix sweep, bit-lane tables of 4..64 commands and the case-fold family; even while the monitor is otherwise lost, a handler must belong to the last consumed line."),
+    "C03": _c("Model: BoundsOk (every store index inside its buffer half) in MC_Line / MC_Args at capacities 6..10. Executions: every family runs on an ASan+UBSan build with canaries around both buffers and every variable and a byte-compare of the idle machine's buffer half; capacity-boundary, exact-fit match-bit and argument-length families.",
+              "the specification decides index arithmetic and half isolation; other undefined behaviour (signed overflow, misaligned access) is observed by the sanitizers on the executions the specification generates - the sanitizer is the observer there"),
+    "C04": _c("DecodeVar (digit-sequence arithmetic, no machine integers) predicts acceptance and stored value; MC_Args explores argument texts over a 10-symbol alphabet with callbacks failing; executions cover boundary and adversarial digit strings up to the buffer capacity and beyond 2^64 for every type x width x access x position."),
+    "C05": _c("BufHexLoop / StrLoop transcribe the decoders with their stores; MC_Args explores string and hex-buffer texts for the three access modes; executions cover data_size 1..64 with decoded lengths data_size-1, data_size, data_size+1 through the plain, escape and terminator paths; canaries catch any byte at or beyond data_size."),
+    "C06": _c("The monitor compares the arguments seen inside every handler (bytes, length, NUL, parsed count, true capacity) with the bytes of the line / the oracle text; MC_Line at capacities 6..8; executions with argument lengths capacity-2 .. capacity+1 and 3 x capacity over all byte values, shared and separate event buffer."),
+    "C07": _c("Literal round trip on the real code (harness op roundtrip: AT<c>? then AT<c>=<that text>): the monitor requires OK and no change of any variable; all 256 patterns of the 8-bit types, slices of the 16-bit ones, random and boundary 32-bit values, buffers and strings (full-length, escapes at both ends) of size 1..64 in mixed lists; READ text is also predicted by ReadVarText."),
+    "C08": _c("Monitor: any storage change of a read-only variable is a violation; READ / event texts are predicted with write-only variables masked and compared against the unmasked alternative to recognise disclosure; availability rules are part of LineOutcome; MC_Args covers the three access modes for every decoder path."),
+    "C09": _c("MC_Flags: all toggle histories (<= 2, thorough 3) of command / group disable and only_test between lines; executions: random toggle histories between lines with every lookup path (exact, abbreviation, implicit write, '=?', list); LineOutcome is evaluated with the current flags."),
+    "C10": _c("MC_Codes: every return code (9 codes, -2, 9) at every handler invocation of all four kinds in both machines with buffer edits and failing variable callbacks; executions: scripted code sequences of length <= 13 with data edits and variable changes between calls; the monitor is the table-driven interpreter of the code table."),
+    "C11": _c("MC_Sched: every readiness schedule with triggers and queries at any point (FlushMutex + unit matcher); executions: heavy back-pressure with disjoint command sets for lines and events; the matcher attributes every accepted byte to an owed unit of exactly one producer."),
+    "C12": _c("MC_Sched explores all schedules against schedule-independent predictions; executions: the same scenario under the eager and three other schedules, each judged by the monitors, plus a literal comparison of output bytes and handler invocations between schedule twins (lines only)."),
+    "C13": _c("MC_Ring: unbounded trigger / service / query histories for capacities 1..3 (finite state space), RingOk; executions: long histories for capacities 1,2,3,8 with the non-locking observers queried after every call; the monitor keeps the abstract queue with an uncertainty window for unobservable pops."),
+    "C14": _c("MC_Hold: hold from every handler kind, release by API or event handler at any point, spurious and repeated requests, queued second line; executions: fam_hold with input offsets at every read."),
+    "C15": _c("MC_Live: under weak fairness of cat_service, once the stimulus budgets are spent the call eventually reports OK (no state constraint); safety: OK only when nothing is owed and a repeated call is a stutter - judged on every execution by the settle epilogue; events failing at once in every queue position."),
+    "C16": _c("MC_Mutex: lock and unlock results are environment choices for all locking functions; executions: lock / unlock failing at the k-th invocation along histories that reach every return code of every handler kind in both machines; in-callback snapshots of the object show that nothing changes outside the bracket."),
+    "C17": _c("CatThreads: all interleavings of <= 2 (thorough 3) producers with the service loop, ExactlyOnce; a racy variant must violate it (vacuity). Executions: real threads and a real pthread mutex; every critical section, in lock order with its hooked accesses, is validated by TLC against the ring; ThreadSanitizer as a second observer.",
+              "interleavings of real threads are sampled, not enumerated; accesses without a hook are visible only to ThreadSanitizer"),
+    "C18": _c("cat_is_busy / cat_is_hold are sampled after every cat_service call; the monitor knows partial lines, unanswered lines and open units from observable events; MC_Sched / MC_Hold allow the queries at every point."),
+    "C19": _c("TestText / ListBlocks predict the '=?' response and the command list; MC_List: 32 descriptors x capacities 6,7,8,20; executions: random descriptors and capacities around the text length, by line and by event, with flag changes."),
+    "C20": _c("MC_Hist: HavocScratch overwrites every stale per-line field at line boundaries; executions: line sequences in all orders on objects pre-filled with 0x00/0x55/0xA5/0xFF, fed in one piece or line by line; predictions are per line, so agreement is history independence; newline style from the line's CR."),
+}
